@@ -251,7 +251,13 @@ class JsGen:
         if k < 91:
             return "print(eval(%r));" % ("1 + " + self.lit().replace("'", "\""))
         if k < 93:
-            return "{ let tdz1 = 1; { print(typeof tdz1); } }"
+            # a block whose binding is captured by a closure: it needs a real environment, which every way out of the
+            # block (return, break, continue, throw, fall-through) has to pop
+            n = self.fresh("c")
+            self.scope.append([n])
+            inner = self.stmt(d - 1)
+            self.scope.pop()
+            return "{ let %s = %s; (() => %s)(); %s }" % (n, self.expr(1), n, inner)
         if k < 95:
             a = self.var()
             return "[%s, %s] = [%s, %s];" % (a, a, self.expr(1), self.expr(1))
